@@ -28,6 +28,9 @@ import (
 //	dup   A=which message                     tick A=node, B=ticks      tka (tick all up nodes once)
 //	prop  A=node (B&1: A-th leader instead)   camp A=node               xfer A=node, B=transferee
 //	iso   A=node                              heal                      crash A=node
+//	part  A=bitmask of the nodes in group B: messages between the two groups are lost until heal
+//	burst A=node: everything in flight to that node is delivered, oldest first, no Ready in between
+//	settle B=rounds: deliver everything in flight, handle every Ready, repeat (a quiet spell)
 //	rst   A=which down node, B&1=replay from snapshot
 //	cmp   A=node, B=entries to keep
 //	cc    A=which leader, B=kind(0 add voter,1 remove,2 add learner/demote,3 two changes,4 leave joint),
@@ -104,6 +107,39 @@ func (r *microRun) upNodes(pred func(n *node) bool) []*node {
 	return out
 }
 
+// pendingCC: the node's log holds a committed membership change that it has not applied yet.
+func pendingCC(n *node) bool {
+	st := n.rn.BasicStatus()
+	if st.Commit <= n.applied {
+		return false
+	}
+	// the library's own log is the authority (unstable entries included); read it through the storage
+	// where possible, which is enough for a label
+	last, _ := n.ms.LastIndex()
+	hi := st.Commit
+	if hi > last {
+		hi = last
+	}
+	first, _ := n.ms.FirstIndex()
+	lo := n.applied + 1
+	if lo < first {
+		lo = first
+	}
+	if lo > hi {
+		return false
+	}
+	ents, err := n.ms.Entries(lo, hi+1, noLimit)
+	if err != nil {
+		return false
+	}
+	for i := range ents {
+		if ents[i].Type == pb.EntryConfChange || ents[i].Type == pb.EntryConfChangeV2 {
+			return true
+		}
+	}
+	return false
+}
+
 func isLeader(n *node) bool { return n.rn.BasicStatus().RaftState == raft.StateLeader }
 
 func (r *microRun) step(a Act) {
@@ -168,7 +204,53 @@ func (r *microRun) step(a Act) {
 		}
 	case "camp":
 		if n := s.nodes[mod(a.A, N)]; n.rn != nil {
+			if pendingCC(n) {
+				s.ct.CampPendingCC++
+			}
 			_ = n.rn.Campaign()
+		}
+	case "part":
+		s.parted, s.side = true, uint64(a.A)<<1
+		s.ct.Partitions++
+	case "burst":
+		n := s.nodes[mod(a.A, N)]
+		var rest, mine []pb.Message
+		for _, m := range r.nw.msgs {
+			if m.To == n.id {
+				mine = append(mine, m)
+			} else {
+				rest = append(rest, m)
+			}
+		}
+		r.nw.msgs = rest
+		for _, m := range mine {
+			s.deliver(m)
+		}
+		if len(mine) > 1 {
+			s.ct.Bursts++
+		}
+	case "settle":
+		s.ct.Settles++
+		for round := 0; round < 1+mod(a.B, 12); round++ {
+			busy := false
+			msgs := r.nw.msgs
+			r.nw.msgs = nil
+			for _, m := range msgs {
+				s.deliver(m)
+				busy = true
+			}
+			for _, n := range s.nodes {
+				for k := 0; k < 64 && n.rn != nil && n.rn.HasReady(); k++ {
+					s.processReady(n, stopNone)
+					busy = true
+					if s.fail != "" {
+						return
+					}
+				}
+			}
+			if !busy {
+				break
+			}
 		}
 	case "xfer":
 		if n := s.nodes[mod(a.A, N)]; n.rn != nil {
@@ -178,7 +260,7 @@ func (r *microRun) step(a Act) {
 	case "iso":
 		s.isolated |= 1 << uint(1+mod(a.A, N))
 	case "heal":
-		s.isolated = 0
+		s.isolated, s.parted, s.side = 0, false, 0
 	case "crash":
 		s.crash(s.nodes[mod(a.A, N)], false)
 	case "rst":
@@ -366,6 +448,8 @@ func outcomeOf(s *sim, executed, profile int) kit.Outcome {
 	add(ct.ConfCommitted > 0, "cases:with-conf-change-committed")
 	add(ct.JointCommitted > 0, "cases:with-joint-config")
 	add(ct.Leaders == 0, "cases:no-leader-ever")
+	add(ct.Partitions > 0, "cases:with-group-partition")
+	add(ct.CampPendingCC > 0, "cases:campaign-with-unapplied-conf-change")
 	C := kit.C
 	C.Label("actions", ct.Actions)
 	C.Label("deliveries", ct.Delivered)
@@ -392,6 +476,11 @@ func outcomeOf(s *sim, executed, profile int) kit.Outcome {
 	C.Label("conf-changes-committed", ct.ConfCommitted)
 	C.Label("joint-configs-entered", ct.JointCommitted)
 	C.Label("leader-transfers-requested", ct.Transfers)
+	C.Label("group-partitions", ct.Partitions)
+	C.Label("bursts-of-2+-messages-without-a-ready", ct.Bursts)
+	C.Label("quiet-spells", ct.Settles)
+	C.Label("campaigns-asked-with-an-unapplied-committed-conf-change", ct.CampPendingCC)
+	C.Label("votes-granted", ct.VotesGranted)
 	C.MaxExtra("max_term", int64(ct.MaxTerm))
 	C.MaxExtra("max_log_index", int64(ct.MaxLog))
 	return o
@@ -440,6 +529,7 @@ func genCase(t *rapid.T) Case {
 		{"rdy", 25}, {"del", 30}, {"tick", 6}, {"prop", 3}, {"tka", 1}, {"camp", 1},
 		{"drp", 2 * f}, {"dup", f}, {"iso", f}, {"heal", 2}, {"crash", f}, {"rst", 3},
 		{"cmp", 2}, {"cc", 2}, {"xfer", 1},
+		{"part", f}, {"burst", 2}, {"settle", 1},
 	}
 	var table []string
 	for _, w := range ws {
@@ -472,8 +562,12 @@ func genCase(t *rapid.T) Case {
 		case "prop":
 			a.A = ubits(t, 4)
 			a.B = pickInt(t, []int{1, 1, 1, 0})
-		case "camp", "iso", "crash":
+		case "camp", "iso", "crash", "burst":
 			a.A = ubits(t, 4)
+		case "part":
+			a.A = ubits(t, 7)
+		case "settle":
+			a.B = ubits(t, 3)
 		case "xfer", "rst", "cmp":
 			a.A = ubits(t, 4)
 			a.B = ubits(t, 4)
